@@ -463,15 +463,14 @@ package gorm
 //@ spec colName(f) = ite(f.DBName == "", f.Name, f.DBName)
 //@ spec denied(f, rc, ru) = (rc && !f.Creatable) || (ru && !f.Updatable)
 //@ func (*Statement).SelectAndOmitColumns
-//@   tags C10-undischarged
+//@   tags C10
 //@   loop 3 invariant results-is-own-map: fresh(results) && stmt.Schema != nil
 //@   loop 3 invariant denied-named-fields-excluded-so-far: forallkey(k, stmt.Schema.FieldsByName, visited(k) && denied(stmt.Schema.FieldsByName[k], requireCreate, requireUpdate) && stmt.Schema.FieldsByName[k].DBName != "" ==> has(results, stmt.Schema.FieldsByName[k].DBName) && !results[stmt.Schema.FieldsByName[k].DBName])
 //@   loop 3 invariant denied-unnamed-fields-excluded-so-far: forallkey(k, stmt.Schema.FieldsByName, visited(k) && denied(stmt.Schema.FieldsByName[k], requireCreate, requireUpdate) && stmt.Schema.FieldsByName[k].DBName == "" ==> has(results, stmt.Schema.FieldsByName[k].Name) && !results[stmt.Schema.FieldsByName[k].Name])
 //@   ensures denied-fields-excluded: stmt.Schema != nil ==> forallkey(k, stmt.Schema.FieldsByName, has(stmt.Schema.FieldsByName, k) ==> denied(stmt.Schema.FieldsByName[k], requireCreate, requireUpdate) ==> has(result0, colName(stmt.Schema.FieldsByName[k])) && !result0[colName(stmt.Schema.FieldsByName[k])])
 
-//@ # C10 note: the permission lemma on SelectAndOmitColumns above is written and its entry/exit steps
-//@ # discharge, but the preservation step on the two writing paths times out on all three solvers; it is
-//@ # therefore tagged C10-undischarged and NOT part of the C10 claim (DESIGN.md 4/C10).
+//@ # C10 note: the permission lemma above discharges since values read under a contract quantifier carry
+//@ # their typed-memory facts (DESIGN.md 10.2); it is part of the C10 claim.
 
 //@ site column-updates-run-no-hooks
 //@   match call gorm.(*processor).Execute
